@@ -12,6 +12,7 @@ package main
 // or pointers to repository structs that the function only reads (contract `modifies nothing`).
 
 import (
+	"regexp"
 	"bytes"
 	"context"
 	"encoding/json"
@@ -355,6 +356,21 @@ func (rc *replayCtx) stringPool() []string {
 		}
 		return true
 	})
+	// string literals of the contract's own clauses (a clause about "(" needs inputs containing "(")
+	if rc.fc != nil {
+		lit := regexp.MustCompile("\"((?:[^\"\\\\]|\\\\.)*)\"")
+		for _, cs := range [][]*Clause{rc.fc.Requires, rc.fc.Ensures} {
+			for _, c := range cs {
+				for _, m := range lit.FindAllString(c.Src, -1) {
+					if s, err := strconv.Unquote(m); err == nil && s != "" {
+						add(s)
+						add("a" + s)
+						add("a" + s + "b")
+					}
+				}
+			}
+		}
+	}
 	return pool
 }
 
